@@ -16,13 +16,16 @@ CFG = dict(
           "the request came from / the origin). The unconditional clause (a relayed stream is never reported complete with messages missing) "
           "is refuted: C16_complete_means_complete_refuted, finding proxy-overflow>buf (D-16). The end-to-end clause (RPCs through the proxy "
           "complete as on a direct connection) follows informally from C16_wire + the client/server properties and is checked on the real "
-          "code (clients - Proxy - Demux - Servers against direct connections); it is not composed into one theorem. The model is run "
+          "code (clients - Proxy - Demux - Servers against direct connections); the proxy's half is proved: C16_is_wire (sent = delivered ++ in flight per pair of records), C16_wire_step (forward simulation onto "
+          "the FIFO wire Model/Sys.v uses), C16_wire_transfer (every wire invariant holds of the proxy's projection); the composition with the "
+          "client and server models into Sys.v's theorems is not built (C16_prefix_through_proxy_partial). The model is run "
           "lock-step against the real goat.Proxy on every run; the reduction used by that comparison is itself re-checked against the full "
           "exploration (Check/C16red.v at build time, case kind CProxyRed on lock-step scenarios).",
     props="Props/C16.v",
     theorems=["C16_accounting", "C16_route", "C16_drop_only_when_full", "C16_no_loss", "C16_source_order", "C16_pair_order",
               "C16_dial_once", "C16_redial", "C16_no_loss_outstanding", "C16_delivered_Q", "C16_measure", "C16_terminates",
-              "C16_run_to_quiescence", "C16_delivered", "C16_wire", "C16_return_route",
+              "C16_run_to_quiescence", "C16_delivered", "C16_is_wire", "C16_wire_step", "C16_wire_transfer",
+              "C16_prefix_through_proxy_partial", "C16_wire", "C16_return_route",
               "C16_complete_means_complete_refuted"],
     imports=["Model.Proxy", "Check.C16c", "Check.C16red"],
     case_type="pxcase",
